@@ -261,6 +261,12 @@ func runC20(c *Ctx) {
 	runScenario("same-file-two-settings", map[string]string{f("t"): A.PEM},
 		[]tlsSettings{{File: f("t"), Interval: iv}, {File: f("t"), Interval: 2 * iv}},
 		[]tlsOp{{Kind: "load", S: 0}, {Kind: "load", S: 1}, {Kind: "write", File: f("t"), Content: B.PEM}, {Kind: "wait"}})
+	// a load that fails (unusable file content) leaves a watcher behind whose callback finds no pooled configuration; the
+	// same settings loaded again after the file became usable supersede it
+	runScenario("failed-load-then-usable", map[string]string{f("g"): "garbage", f("u"): A.PEM},
+		[]tlsSettings{{File: f("g"), Interval: iv}, {File: f("u"), Interval: iv}},
+		[]tlsOp{{Kind: "load", S: 0}, {Kind: "load", S: 1}, {Kind: "write", File: f("g"), Content: B.PEM}, {Kind: "wait"},
+			{Kind: "load", S: 0}, {Kind: "write", File: f("g"), Content: A.PEM}, {Kind: "wait"}})
 	runScenario("skip-verify-forms", nil,
 		[]tlsSettings{{Skip: skips[2]}, {Skip: skips[3]}, {Skip: skips[4]}, {Skip: skips[5]}, {Skip: skips[6]}, {Skip: skips[7]}, {Skip: skips[8]}, {Skip: skips[9]}, {Skip: skips[10]}, {Skip: skips[11]},
 			{CA: A.PEM, Skip: skips[2]}, {}},
